@@ -63,11 +63,52 @@ func subPolicy(s *sched.Sim) sched.Policy {
 
 func scenSUB(s *sched.Sim, cfg Config, res *Result) {
 	prop := "C17"
+	if cfg.Prop == "C10" {
+		// C10 runs this scenario for one thing only: errors an owning service sends on a
+		// subscription reach the client with message, extensions and path
+		prop = "C10"
+		defer func() {
+			kept := res.Violations[:0]
+			for _, v := range res.Violations {
+				if strings.HasPrefix(v.Signature, "C10/upstream-error") || strings.HasPrefix(v.Signature, "C10/hang") {
+					kept = append(kept, v)
+				}
+			}
+			res.Violations = kept
+			if len(kept) == 0 && res.Verdict == "violation" {
+				res.Verdict = "ok"
+			}
+		}()
+	}
 	s.Policy = subPolicy(s)
 	wf := worldFeatures(s, cfg)
 	wf.Subscriptions = true
 	of := opFeatures(s, cfg)
 	of.MultiOp = false
+	detMode := cfg.Prop == "C13"
+	if detMode {
+		// C13 runs this scenario with upstreams that emit one and the same event repeatedly and
+		// asks one thing: every delivery of it is the same payload. Determinism is demanded of
+		// every operation, so the selection shapes of the open findings are drawn too.
+		prop = "C13"
+		wf.Unions = s.T.Bool(1, 2)
+		for _, p := range []*bool{&of.AbstractFrags, &of.AbstractNested, &of.AbstractCondFrag, &of.AbstractFragMeta,
+			&of.IDWithFragments, &of.IDDirective, &of.FragDirectives, &of.VarNamedID} {
+			*p = s.T.Bool(1, 2)
+		}
+		defer func() {
+			kept := res.Violations[:0]
+			for _, v := range res.Violations {
+				if strings.HasPrefix(v.Signature, "C13/event-payloads-differ") || strings.HasPrefix(v.Signature, "C13/hang") {
+					kept = append(kept, v)
+				}
+			}
+			res.Violations = kept
+			if len(kept) == 0 && res.Verdict == "violation" {
+				res.Verdict = "ok"
+			}
+		}()
+	}
 	maxSvc, maxEvents := 3, 5
 	if cfg.Thorough {
 		maxSvc, maxEvents = 4, 12
@@ -80,6 +121,7 @@ func scenSUB(s *sched.Sim, cfg Config, res *Result) {
 		return
 	}
 	env := newSubEnv(fe)
+	env.sameEvents = detMode
 	nConn := 1 + s.T.Choose(2)
 	var specs []*subSpec
 	byAlias := map[string]*subSpec{}
@@ -101,6 +143,8 @@ func scenSUB(s *sched.Sim, cfg Config, res *Result) {
 			for e := 0; e < n; e++ {
 				if s.T.Bool(1, 8) {
 					sc.events = append(sc.events, upEvent{"error"})
+				} else if s.T.Bool(1, 10) {
+					sc.events = append(sc.events, upEvent{"event-with-errors"})
 				} else if s.T.Bool(1, 10) {
 					sc.events = append(sc.events, upEvent{"ka"})
 				} else {
@@ -171,7 +215,7 @@ func scenSUB(s *sched.Sim, cfg Config, res *Result) {
 			for _, sp := range mine {
 				want := 0
 				for _, ev := range sp.script.events {
-					if ev.kind == "event" || ev.kind == "error" {
+					if ev.kind == "event" || ev.kind == "error" || ev.kind == "event-with-errors" {
 						want++
 					}
 				}
@@ -246,7 +290,7 @@ func scenSUB(s *sched.Sim, cfg Config, res *Result) {
 					want = append(want, item{seq: uc.emitted[ei]})
 					ei++
 				}
-			case "error":
+			case "error", "event-with-errors":
 				if ri < len(uc.errsSent) {
 					want = append(want, item{err: uc.errsSent[ri]})
 					ri++
@@ -255,6 +299,27 @@ func scenSUB(s *sched.Sim, cfg Config, res *Result) {
 		}
 		got := cl.dataFrames(sp.id)
 		res.Checks++
+		if detMode {
+			// the data frames that answer plain events (same upstream payload each time)
+			var first string
+			k := 0
+			for j := 0; j < len(got) && j < len(want); j++ {
+				if want[j].err != "" {
+					continue
+				}
+				k++
+				if first == "" {
+					first = string(got[j].Payload)
+				} else if string(got[j].Payload) != first {
+					res.Violate(prop+"/event-payloads-differ", "subscription %s: the upstream sent the same event %d times; delivery 1 is %s\ndelivery %d is %s\nop: %s", sp.id, k, clipStr(first, 400), k, clipStr(string(got[j].Payload), 400), sp.op.Text)
+					break
+				}
+			}
+			if k > 1 {
+				res.Probe("det.same-subscription-event-delivered-several-times")
+			}
+			continue
+		}
 		totalEvents += len(want)
 		if len(got) != len(want) {
 			res.Violate(prop+"/event-count", "subscription %s on connection %d: upstream emitted %d items, the client received %d data frames\nop: %s\nframes: %s", sp.id, sp.conn, len(want), len(got), sp.op.Text, clipStr(fmt.Sprint(frameSummary(got)), 400))
@@ -273,6 +338,18 @@ func scenSUB(s *sched.Sim, cfg Config, res *Result) {
 				for _, e := range pl.Errors {
 					if e["message"] == want[j].err {
 						found = true
+						// extensions and path as sent
+						ext, _ := e["extensions"].(map[string]interface{})
+						wantCode := "UP"
+						if strings.HasPrefix(want[j].err, "upstream-partial-") {
+							wantCode = "PARTIAL"
+							if pj, _ := json.Marshal(e["path"]); string(pj) != `["zzRoot",0,"zz"]` {
+								res.Violate(prop+"/upstream-error-path-changed", "item %d of %s: path of upstream error %q arrives as %s", j, sp.id, want[j].err, pj)
+							}
+						}
+						if ext["code"] != wantCode {
+							res.Violate(prop+"/upstream-error-extensions-changed", "item %d of %s: extensions of upstream error %q arrive as %v", j, sp.id, want[j].err, e["extensions"])
+						}
 					}
 				}
 				if !found {
